@@ -28,6 +28,8 @@ R19.h  distinct machines: nothing sampled with replacement (``choices``, a
 R19.j  no function of these modules modifies the object of a mutable default
        argument (directly, through a local alias, or with ``+=``): the result
        of a call must not depend on earlier calls.
+R19.k  no for-loop variable of these modules is read after its loop (a statement
+       left one indentation level too shallow sees only the last element).
 """
 
 from __future__ import annotations
@@ -50,6 +52,7 @@ MANIFEST = {
         "produce num_jobs x num_machines operations with range-drawn durations; the machine list of a flexible operation is never sampled with replacement; generating never rewrites the generator's configuration. "
         "Not decided: that sampled values lie in their ranges (values)."
         " Also decided: no function of these modules accumulates into a mutable default argument."
+        " Also decided: no for-loop variable of these modules is read after its loop (statement left one indentation level too shallow)."
     ),
     "note": "random.Random's determinism for a given seed and call order is trusted.",
     "technique": "interprocedural data-dependence (taint) of constructor arguments + RNG who-may-call sweep + attribute write discipline + loop-shape matching",
@@ -98,6 +101,9 @@ def dep_on(ctx, fi: FuncInfo, expr, names: set[str], depth=0) -> bool:
 
 def run(ctx):
     chk, repo = ctx.chk, ctx.repo
+    from .common import check_loop_variable_leaks
+
+    check_loop_variable_leaks(ctx, "R19.k", ("job_shop_lib.generation",), "the generation")
     from .common import check_mutable_defaults
 
     check_mutable_defaults(ctx, "R19.j", ("job_shop_lib.generation",), "the generation")
@@ -483,13 +489,27 @@ def _jobs_vs_machines(ctx, generate_raw):
                             work.append(d[1])
         return out, seen
 
+    def _attr_or_property(x, attr):
+        """x is `<obj>.attr`, or a property of the generator whose getter reads `self.attr`
+        (min_num_machines -> num_machines_range[0])"""
+        if not isinstance(x, ast.Attribute):
+            return False
+        if x.attr == attr:
+            return True
+        if isinstance(x.value, ast.Name) and x.value.id == "self" and generate_raw.cls is not None:
+            pt = ctx.repo.method(generate_raw.cls, x.attr)
+            if pt is not None and pt.is_property:
+                return any(isinstance(y, ast.Attribute) and y.attr == attr for y in own_nodes(pt.node))
+        return False
+
     def from_attr(e, attr):
-        return any(isinstance(x, ast.Attribute) and x.attr == attr for c in closure_exprs(e)[0] for x in ast.walk(c))
+        return any(_attr_or_property(x, attr) for c in closure_exprs(e)[0] for x in ast.walk(c))
 
     def from_jobs(e):
-        """depends on the job count: the public `num_jobs` parameter or a draw from num_jobs_range"""
+        """depends on the *actual* job count: the `num_jobs` parameter / the value drawn
+        for it.  (The range's maximum alone, `self.max_num_jobs`, is not the job count.)"""
         exprs, names = closure_exprs(e)
-        return "num_jobs" in names or any(isinstance(x, ast.Attribute) and x.attr == "num_jobs_range" for c in exprs for x in ast.walk(c))
+        return "num_jobs" in names
 
     randints = [
         n for n in own_nodes(generate.node)
@@ -652,7 +672,7 @@ def _iterator(ctx, base):
         rv = p.events[-1].data.get("value") if p.events and p.events[-1].kind == "return" else None
         if rv is None or ctx.norm.xtext(nxt, rv) != "self.generate()":
             ok = False
-            chk.violation("R19.e", nxt, rv, "__next__ does not return self.generate()")
+            chk.violation("R19.e", nxt, rv, f"__next__ does not return self.generate() (returns `{ctx.norm.xtext(nxt, rv) if rv is not None else None}`)")
             break
     if not saw_stop and ok:
         ok = False
